@@ -7,8 +7,10 @@ open Golem.Props.C02
 #print axioms short_names_panic
 #print axioms wrong_type_by_name_panics
 #print axioms non_struct_container_panics
+#print axioms container_not_struct_panics
+#print axioms ptr_container_panics
+#print axioms ptr_container_panics_in_constructor
 #print axioms reflector_rejects_foreign
 #print axioms ptr_embedded_focus_out_of_bounds
 #print axioms ptr_embedded_focus_overlaps_field
-#print axioms ptr_container_accepted
 #print axioms derive_ok_or_panic_false
